@@ -210,6 +210,7 @@ type runner struct {
 }
 
 func newRunner(ctx *core.Ctx, spellings []string) *runner {
+	systemRoot(ctx.Root) // before anything loads the system certificate pool of this process
 	f, err := newFixture(ctx, spellings)
 	if err != nil {
 		core.Fatalf("C07: scripted origins: %v", err)
@@ -253,6 +254,12 @@ func (rn *runner) one(raw json.RawMessage, r *core.Rand) {
 			core.Fatalf("C07: bad hist case")
 		}
 		runHistory(rn.ctx, rn.f, &c, r)
+	case "trust":
+		var c trustCase
+		if json.Unmarshal(raw, &c) != nil {
+			core.Fatalf("C07: bad trust case")
+		}
+		runTrust(rn.ctx, &c, r)
 	default:
 		core.Fatalf("C07: unknown case kind %q", k.Kind)
 	}
@@ -275,7 +282,8 @@ func Run(ctx *core.Ctx) {
 		"IPv4, IPv6) on drawn ports, every origin closing after each response, in drawn orders and swept as tunnel-first and origins-tunnel-origins for every upstream kind; each event's verdict and the SNI " +
 		"the origin saw are compared with Model.C07.runHist and with the same event alone on a fresh instance; a history event is non-trivial when something happened on the instance before it; " +
 		"distinct = distinct (configuration, authority, SNI, phase) " +
-		"resp. (configuration, addressing, origin kind, port, header) resp. (configuration, host spelling, port) resp. strings resp. (configuration, event kind, host, how many tunnels / verifications before: 0, 1, 2+)")
+		"resp. (configuration, addressing, origin kind, port, header) resp. (configuration, host spelling, port) resp. strings resp. (configuration, event kind, host, how many tunnels / verifications before: 0, 1, 2+) " +
+		"resp. (kind and CA list of the instance, CA of the origin, way of the request, CA lists of all instances built so far, whether more were built after it)")
 	ctx.Assume("crypto is not modelled: x509 verification is an abstract predicate in the Lean model (hypothesis FreshVerifies of the theorems); " +
 		"the run checks the real certificates with crypto/x509 as an independent verifier")
 	corpus := core.LoadCorpus(ctx.Root, "C07")
@@ -350,6 +358,20 @@ func Run(ctx *core.Ctx) {
 		hists = append(hists, job{enc(c), r})
 	}
 
+	// histories of instance construction: each builds its own instances, steps in order
+	var trusts []job
+	for _, c := range sweepTrust(ctx.Rng.Sub()) {
+		trusts = append(trusts, job{enc(c), ctx.Rng.Sub()})
+	}
+	for i, n := 0, ctx.N(24, 400); i < n; i++ {
+		r := ctx.Rng.Sub()
+		c := genTrust(r)
+		if i < 1 {
+			ctx.Sample(c)
+		}
+		trusts = append(trusts, job{enc(c), r})
+	}
+
 	rn := newRunner(ctx, spellings)
 	defer rn.close()
 	for _, c := range corpus {
@@ -379,6 +401,7 @@ func Run(ctx *core.Ctx) {
 	work(ctx.N(10, 12), batches)
 	work(6, light)
 	work(4, hists)
+	work(3, trusts)
 	wg.Wait()
 }
 
